@@ -24,10 +24,12 @@ rm -f $WT/$PKG/zz_demo_test.go
 git checkout -q -- . ; git clean -qfd -e out
 echo "== my check against the patched /repo"
 cd /verif
-trap 'git -C /repo checkout -q -- . 2>/dev/null' EXIT TERM INT
-git -C /repo apply $MD/patch.diff 2>/dev/null || ( cd /repo && patch -p1 --fuzz=3 --no-backup-if-mismatch < $MD/patch.diff >/dev/null && echo "(applied with fuzz)" ) || { echo PATCH-DOES-NOT-APPLY-TO-REPO; git -C /repo checkout -q -- .; exit 7; }
+trap 'git -C /repo checkout -q HEAD -- . 2>/dev/null' EXIT TERM INT
+# /repo may have moved on since the worktree was cut (a fix: commit): fall back to a three-way merge on the blobs the
+# patch names (never to fuzzy context matching, which once moved a hunk into another branch)
+git -C /repo apply $MD/patch.diff 2>/dev/null || { git -C /repo apply --3way $MD/patch.diff >/dev/null 2>&1 && [ -z "$(git -C /repo diff --name-only --diff-filter=U)" ] && echo "(applied with a three-way merge)"; } || { echo PATCH-DOES-NOT-APPLY-TO-REPO; git -C /repo checkout -q HEAD -- .; exit 7; }
 timeout 1300 ./check $PROP "$@" 2>&1 | grep -E "VIOLATION|class=|KNOWN|ERROR|runs \(" | cut -c1-260 | head -8
 echo "check exit: ${PIPESTATUS[0]}"
-git -C /repo checkout -q -- .
+git -C /repo checkout -q HEAD -- .
 find /repo -name "*.orig" -newer /verif/tools/try_seeded.sh -delete 2>/dev/null
 git -C /repo status --short | head -3
